@@ -253,6 +253,8 @@ func (t *Table) Delete(path *Path) {
 			}
 			if len(routesNow) < len(routes) {
 				t.routes[targetKey] = routesNow
+				// keep the persisted routes in step, or a restart brings the deleted route back
+				_ = t.store.Put(routePrefix+target.String(), routesNow)
 			}
 		}
 	})
